@@ -151,12 +151,11 @@ Proof. repeat split. Qed.
 
 (* the model the drivers run: no history step panics or runs out of fuel *)
 Lemma m_grun_no_panic c l :
-  gc_add c = false ->
   Forall (ev_ok (glue_rf fixes_all) (glue_sf fixes_all)) l ->
   snd (m_grun fixes_all c l) = None.
 Proof.
-  intros Hadd Hl. unfold m_grun.
-  apply (grun_ok fixes_all (glue_cf fixes_all) (glue_rf fixes_all) (glue_sf fixes_all) cfg_fixed c fixes_all_ok glue_cf_safe glue_rf_safe Hadd l grp_init 0).
+  intros Hl. unfold m_grun.
+  apply (grun_ok fixes_all (glue_cf fixes_all) (glue_rf fixes_all) (glue_sf fixes_all) cfg_fixed c fixes_all_ok glue_cf_safe glue_rf_safe l grp_init 0).
   - apply ginv_init.
   - exact Hl.
 Qed.
@@ -182,25 +181,23 @@ Lemma glue_stat_safe m : stat_safe (glue_rf fixes_all) (glue_sf fixes_all) m.
 Proof. intros _. repeat split; intros; first [apply glue_avc_dims_ok | apply glue_hevc_dims_ok]. Qed.
 
 Lemma no_panic_main (c : grp_cfg) (history : list gev) :
-  gc_add c = false ->
   (forall m, In (GPub m) history -> well_framed m) ->
   snd (m_grun fixes_all c history) = None.
 Proof.
-  intros Hadd H. apply m_grun_no_panic; [exact Hadd|].
+  intros H. apply m_grun_no_panic.
   apply Forall_forall. intros e He. destruct e as [m| | | |]; cbn; try exact I.
   split; [apply glue_stat_safe|exact (H m He)].
 Qed.
 
 (* amortised work of a whole history on the model the drivers run *)
 Lemma bounded_work_main (c : grp_cfg) (history : list gev) :
-  gc_add c = false ->
   (forall m, In (GPub m) history -> well_framed m) ->
   exists tot, m_gtotal fixes_all c history = Some tot /\
               tot <= (11 + joins_count history) * pubs_cost history
                      + (10 + joins_count history) * 4293 * pubs_count history.
 Proof.
-  intros Hadd H. unfold m_gtotal.
-  destruct (gtotal_amort fixes_all (glue_cf fixes_all) (glue_rf fixes_all) (glue_sf fixes_all) cfg_fixed c fixes_all_ok glue_cf_safe glue_rf_safe Hadd
+  intros H. unfold m_gtotal.
+  destruct (gtotal_amort fixes_all (glue_cf fixes_all) (glue_rf fixes_all) (glue_sf fixes_all) cfg_fixed c fixes_all_ok glue_cf_safe glue_rf_safe
               (10 + joins_count history) history grp_init) as (tot & E & Hle).
   - apply ginv_init.
   - apply Forall_forall. intros e He. destruct e as [m| | | |]; cbn; try exact I.
